@@ -400,6 +400,8 @@ def features(node):
         t = n[0]
         if t == "backref":
             f.add("backref")
+        if t == "lit" and n[1] == "\u0130":
+            f.add("dotted_I")
         if t == "cls":
             c = n
             while c is not None:
